@@ -118,8 +118,11 @@ def gen_history(rng, length, c07=False):
     ops = []
     made_conflict_names = []
     for i in range(length):
-        r = rng.below(10)
-        if r < 4:
+        r = rng.below(11)
+        if r == 10:
+            c = rng.pick(CONTENTS)
+            ops.append(("both", rng.pick(PATHS), c, c))   # both sides make the SAME edit (converge-identical over a recorded base)
+        elif r < 4:
             ops.append(("write", rng.pick("AB"), rng.pick(PATHS), rng.pick(CONTENTS)))
         elif r < 6:
             ops.append(("delete", rng.pick("AB"), rng.pick(PATHS)))
@@ -189,6 +192,9 @@ def run(pid, tier, seed, rundir, model_run):
         # D10: conflict, then edit the conflict copy and repeat the conflict with the same loser
         [("write", "A", "p", b"3"), ("bisync",), ("both", "p", b"one\n", b"two two\n"), ("bisync",),
          ("editcc", "A", b"six" * 50), ("both", "p", b"one\n", b"four-four-four-four\n"), ("bisync",), ("bisync",)],
+        # (seed C02-C) both sides make the SAME edit over a recorded base, then one side goes on and the other goes back
+        [("both", "p", b"one\n", b"one\n"), ("bisync",), ("both", "p", b"two two\n", b"two two\n"), ("bisync",),
+         ("write", "A", "p", b"3"), ("write", "B", "p", b"one\n"), ("bisync",), ("bisync",)],
         # delete-vs-modify, first run without archive, several paths
         [("write", "A", "p", b"one\n"), ("write", "B", "q", b"3"), ("write", "A", "d/r", b""), ("bisync",),
          ("delete", "A", "p"), ("write", "B", "p", b"two two\n"), ("delete", "B", "d/r"), ("bisync",), ("bisync",)],
